@@ -144,6 +144,21 @@ public class Q {
 
     public static Value QStr(Value a) { R x = r(a); return new StringValue(x.n + "/" + x.d); }
 
+    public static Value QFloor(Value a) {
+        R x = r(a);
+        BigInteger[] qr = x.n.divideAndRemainder(x.d);
+        BigInteger f = qr[0];
+        if (qr[1].signum() < 0) f = f.subtract(BigInteger.ONE);
+        return v(f, BigInteger.ONE);
+    }
+
+    public static Value QFix(Value a, Value p) {
+        R x = r(a);
+        BigDecimal q = new BigDecimal(x.n).divide(new BigDecimal(x.d), i(p), RoundingMode.HALF_EVEN);
+        String s = q.setScale(i(p), RoundingMode.HALF_EVEN).toPlainString();
+        return new StringValue(s);
+    }
+
     public static Value QSci(Value a, Value digits) {
         R x = r(a);
         MathContext mc = new MathContext(i(digits), RoundingMode.HALF_EVEN);
